@@ -494,7 +494,8 @@ class Plucker(SMUserList):
         
         :param x: 3D point
         :type x: 3-element array_like, or numpy.ndarray, shape=(3,N)
-        :param tol: Tolerance, defaults to 50*_eps
+        :param tol: Tolerance on the distance of the point from the line, relative to the
+            magnitude of the coordinates (at least 1), defaults to 50*_eps
         :type tol: float, optional
         :raises ValueError: Bad argument
         :return: Whether point is on the line
@@ -506,11 +507,16 @@ class Plucker(SMUserList):
         If ``X`` is an array with 3 rows, the test is performed on every column and
         an array of booleans is returned.
         """
+        pp, uw = self.pp, self.uw
+
+        def online(x):
+            # distance from the line against the tolerance scaled by the data
+            return np.linalg.norm(np.cross(x - pp, uw)) < tol * max(1, np.linalg.norm(x), np.linalg.norm(pp))
+
         if base.isvector(x, 3):
-            x = base.getvector(x)
-            return np.linalg.norm( np.cross(x - self.pp, self.w) ) < tol
+            return online(base.getvector(x))
         elif base.ismatrix(x, (3,None)):
-            return [np.linalg.norm(np.cross(_ - self.pp, self.w)) < tol for _ in x.T]
+            return [online(_) for _ in x.T]
         else:
             raise ValueError('bad argument')
 
